@@ -103,3 +103,15 @@ Definition glue_number_ok (c : Z * bytes) : bool :=
   let '(bits, out) := c in
   match mv out with Some me => rounds_to bits me | None => false end.
 Definition check_glue_number := mismatches glue_number_ok.
+
+(* ---- helpers/utf.go ---- *)
+(* (units, helpers.UTF16ToString(units), helpers.StringToUTF16 of that) *)
+Definition utf_ok (c : list Z * bytes * list Z) : bool :=
+  let '(u, w, back) := c in
+  zlist_eqb (UTF16ToString u) w && zlist_eqb (StringToUTF16 w) back
+  && value_is (wtf8_to_utf16 (S (length w)) w) u.
+Definition check_utf := mismatches utf_ok.
+(* (bytes, rune, width) of helpers.DecodeWTF8Rune *)
+Definition wtf8rune_ok (c : bytes * Z * Z) : bool :=
+  let '(b, r, w) := c in let '(mr, mw) := DecodeWTF8Rune b in (mr =? r) && (mw =? w).
+Definition check_wtf8rune := mismatches wtf8rune_ok.
